@@ -502,8 +502,7 @@ FL_OPS = {"insert", "get", "get_key_value", "contains_key", "remove", "remove_en
 def flurry_projection(trace, job, consts):
     """The recorded stream of shared-memory accesses -> Trace_Flurry input (see the module's header).
     Returns None when the run leaves the alphabet of Flurry.tla (sets, tree bins, other operations)."""
-    if job.get("kind") != "map":
-        return None
+    is_set = job.get("kind") == "set"       # HashSet<T> = HashMap<T, ()>: the same protocol under renamed operations
     nth = len(job.get("threads", []))
     main = nth
     stamps = consts["stamps"]
@@ -582,6 +581,8 @@ def flurry_projection(trace, job, consts):
                     tables.add(e["b"])
             continue
         if k == "call":
+            if is_set:
+                e = dict(e, op=SET_RENAME.get(e["op"], e["op"]))
             if e["op"] not in FL_OPS:
                 if t == main and e["op"] in ("len", "is_empty", "obs", "keys", "values", "debug", "clone_eq", "eq_other", "probe_cmp"):
                     cur_op[t] = None
@@ -608,6 +609,8 @@ def flurry_projection(trace, job, consts):
             if e.get("panic"):
                 return None
             seen = e.get("seen", [])
+            if is_set and cur_op[t]["op"] == "insert":
+                e = dict(e, ok=1 - e.get("ok", 0))       # HashSet::insert answers "newly inserted"
             out.append({"t": t + 1, "c": "ret", "ok": e.get("ok", 0), "v": e.get("v", 0), "tag": e.get("tag", 0), "ni": e.get("ni", 0),
                         "seen": seen[0] if seen else 0, "pl": e.get("pl", 0)})
             cur_op[t] = None
@@ -727,8 +730,19 @@ def flurry_projection(trace, job, consts):
     keys = sorted({o["k"] for t in prog for o in prog[t]})
     maxk = max(keys) if keys else 1
     hashof = [(table[k] if k < len(table) else k) for k in range(1, maxk + 1)]
+    # TLC's integers are 32 bit: a value that does not fit (a poisoned read, a corrupted word) cannot be one the
+    # specification allows; it is replaced by a marker that matches nothing instead of crashing the parser
+    for e in out:
+        for f, x in list(e.items()):
+            if isinstance(x, int) and not isinstance(x, bool) and abs(x) >= (1 << 31):
+                e[f] = -777777
+    for t in prog:
+        for o in prog[t]:
+            for f, x in list(o.items()):
+                if isinstance(x, int) and not isinstance(x, bool) and abs(x) >= (1 << 31):
+                    o[f] = -777777
     return {"id": trace["id"], "nthreads": nth + 1, "prog": [prog[t] for t in range(nth + 1)], "hashof": hashof, "initkeys": [],
-            "n0": lay["n0"], "nslots": max(len(slot_ids), 1), "ntnts": max(len(tnt_ids), 1), "ev": out}
+            "set": 1 if is_set else 0, "n0": lay["n0"], "nslots": max(len(slot_ids), 1), "ntnts": max(len(tnt_ids), 1), "ev": out}
 
 
 def treelock_projection(trace, job):
